@@ -66,3 +66,166 @@ Proof.
 Qed.
 
 End Raw.
+
+(** * the raw model agrees with the value-level model: decoding the result of [raw_e_abs] / [raw_e_copysign_fb] gives
+    [e_abs] / [e_copysign_fb] of the decoded operands (interchange formats: binary32, binary64). *)
+From Flocq Require Import Core BinarySingleNaN.
+From Flocq Require Binary Bits.
+
+Section Tie.
+Variables mw ew : Z.
+Hypothesis Hmw : 0 < mw.
+Hypothesis Hew : 0 < ew.
+Let cemax := 2 ^ (ew - 1).
+Let cprec := mw + 1.
+Hypothesis Hmax : cprec < cemax.
+Let w := mw + ew + 1.
+Notation fl := (binary_float cprec cemax).
+Notation decw := (dec mw ew Hmw Hew Hmax).
+
+(* the same value with another sign, on Flocq's structural floats *)
+Definition sf_with_sign (s : bool) (x : SpecFloat.spec_float) : SpecFloat.spec_float :=
+  match x with
+  | SpecFloat.S754_zero _ => SpecFloat.S754_zero s
+  | SpecFloat.S754_infinity _ => SpecFloat.S754_infinity s
+  | SpecFloat.S754_nan => SpecFloat.S754_nan
+  | SpecFloat.S754_finite _ m e => SpecFloat.S754_finite s m e
+  end.
+
+Lemma B2SF_dec : forall z, B2SF (decw z) = Binary.FF2SF (Bits.binary_float_of_bits_aux mw ew z).
+Proof.
+  intros z. unfold dec. rewrite Binary.B2SF_B2BSN. unfold Bits.binary_float_of_bits.
+  apply Binary.B2SF_FF2B.
+Qed.
+
+(* the decoded value depends on the sign field only through the sign *)
+Lemma aux_join : forall s m e, 0 <= m < 2 ^ mw -> 0 <= e < 2 ^ ew ->
+  Binary.FF2SF (Bits.binary_float_of_bits_aux mw ew (Bits.join_bits mw ew s m e)) =
+  sf_with_sign s (Binary.FF2SF (Bits.binary_float_of_bits_aux mw ew (Bits.join_bits mw ew false m e))).
+Proof.
+  intros s m e Hm He. unfold Bits.binary_float_of_bits_aux.
+  rewrite !Bits.split_join_bits by (try assumption; lia).
+  destruct (Zeq_bool e 0).
+  - destruct m; reflexivity.
+  - destruct (Zeq_bool e (2 ^ ew - 1)).
+    + destruct m; reflexivity.
+    + destruct (m + 2 ^ mw); reflexivity.
+Qed.
+
+Lemma w_pos : 1 <= w. Proof. unfold w. lia. Qed.
+
+Lemma pow_split : 2 ^ (w - 1) = 2 ^ mw * 2 ^ ew.
+Proof. unfold w. replace (mw + ew + 1 - 1) with (mw + ew) by lia. apply Z.pow_add_r; lia. Qed.
+
+(* a pattern is its three fields; the sign field is the top bit *)
+Lemma pattern_fields : forall b, 0 <= b < 2 ^ w ->
+  exists m e, 0 <= m < 2 ^ mw /\ 0 <= e < 2 ^ ew /\
+    b = Bits.join_bits mw ew (raw_signbit w b) m e /\
+    b mod 2 ^ (w - 1) = Bits.join_bits mw ew false m e.
+Proof.
+  intros b Hb.
+  pose proof (Bits.join_split_bits mw ew Hmw Hew b Hb) as J.
+  unfold Bits.split_bits in J.
+  set (m := b mod 2 ^ mw) in *. set (e := (b / 2 ^ mw) mod 2 ^ ew) in *.
+  assert (Pm : 0 < 2 ^ mw) by (apply Z.pow_pos_nonneg; lia).
+  assert (Pe : 0 < 2 ^ ew) by (apply Z.pow_pos_nonneg; lia).
+  assert (Hm : 0 <= m < 2 ^ mw) by (apply Z.mod_pos_bound; exact Pm).
+  assert (He : 0 <= e < 2 ^ ew) by (apply Z.mod_pos_bound; exact Pe).
+  exists m, e. split; [exact Hm|]. split; [exact He|].
+  assert (Hs : raw_signbit w b = (2 ^ mw * 2 ^ ew <=? b)).
+  { unfold raw_signbit. rewrite (testbit_top w w_pos b Hb). rewrite pow_split. reflexivity. }
+  rewrite Hs. split; [symmetry; exact J|].
+  (* clearing the top bit *)
+  pose proof (Bits.join_bits_range mw ew false m e Hm He) as R.
+  unfold Bits.join_bits in *. rewrite !Z.shiftl_mul_pow2 in * by lia.
+  rewrite pow_split.
+  destruct (2 ^ mw * 2 ^ ew <=? b) eqn:E.
+  - apply Z.leb_le in E. symmetry. apply Z.mod_unique with 1; [nia|]. rewrite <- J. ring.
+  - apply Z.leb_gt in E. rewrite <- J at 1. apply Z.mod_small. nia.
+Qed.
+
+Lemma e_abs_sf : forall x : fl, B2SF (e_abs cprec cemax x) = sf_with_sign false (B2SF x).
+Proof. intros [s|s| |s m e H]; try (destruct s; reflexivity). reflexivity. Qed.
+
+Lemma sf_with_sign_idem : forall s t x, sf_with_sign s (sf_with_sign t x) = sf_with_sign s x.
+Proof. now intros s t [ | | | ]. Qed.
+
+Lemma sf_with_sign_false_join : forall m e, 0 <= m < 2 ^ mw -> 0 <= e < 2 ^ ew ->
+  sf_with_sign false (Binary.FF2SF (Bits.binary_float_of_bits_aux mw ew (Bits.join_bits mw ew false m e))) =
+  Binary.FF2SF (Bits.binary_float_of_bits_aux mw ew (Bits.join_bits mw ew false m e)).
+Proof.
+  intros m e Hm He. unfold Bits.binary_float_of_bits_aux.
+  rewrite !Bits.split_join_bits by (try assumption; lia).
+  destruct (Zeq_bool e 0).
+  - destruct m; reflexivity.
+  - destruct (Zeq_bool e (2 ^ ew - 1)).
+    + destruct m; reflexivity.
+    + destruct (m + 2 ^ mw); reflexivity.
+Qed.
+
+(* bit_cast of the raw result = abs_impl of the bit_cast operand *)
+Theorem dec_raw_e_abs : forall b, 0 <= b < 2 ^ w ->
+  decw (raw_e_abs w b) = e_abs cprec cemax (decw b).
+Proof.
+  intros b Hb. apply B2SF_inj. rewrite e_abs_sf, !B2SF_dec.
+  destruct (raw_e_abs_exact w w_pos b Hb) as [Ha _]. rewrite Ha. unfold spec_raw_fabs.
+  destruct (pattern_fields b Hb) as (m & e & Hm & He & Jb & Ja).
+  rewrite Ja. set (s := raw_signbit w b) in Jb. clearbody s. rewrite Jb. rewrite (aux_join s m e Hm He).
+  rewrite sf_with_sign_idem. symmetry. apply sf_with_sign_false_join; assumption.
+Qed.
+
+(* ... and copysign_fallback, for every operand pair whose second operand is not a NaN (the value-level model gives the
+   single NaN the sign "false"; the raw model reads the sign bit of a NaN too, which is what the code does) *)
+Definition sf_sign (x : SpecFloat.spec_float) : bool :=
+  match x with
+  | SpecFloat.S754_zero s | SpecFloat.S754_infinity s | SpecFloat.S754_finite s _ _ => s
+  | SpecFloat.S754_nan => false
+  end.
+Lemma Bsign_sf : forall x : fl, Bsign x = sf_sign (B2SF x).
+Proof. now intros [ | | | ]. Qed.
+Lemma is_nan_sf : forall x : fl, is_nan x = match B2SF x with SpecFloat.S754_nan => true | _ => false end.
+Proof. now intros [ | | | ]. Qed.
+Lemma sf_sign_with : forall s x, x <> SpecFloat.S754_nan -> sf_sign (sf_with_sign s x) = s.
+Proof. intros s [ | | | ] H; try reflexivity. now elim H. Qed.
+Lemma sf_with_sign_nan : forall s x, sf_with_sign s x = SpecFloat.S754_nan -> x = SpecFloat.S754_nan.
+Proof. now intros s [ | | | ]. Qed.
+
+Lemma e_copysign_fb_sf : forall x y : fl,
+  B2SF (e_copysign_fb cprec cemax x y) = sf_with_sign (Bsign y) (B2SF x).
+Proof.
+  intros x y. unfold e_copysign_fb. destruct x as [s|s| |s m e H]; cbn [Bsign]; destruct (Bsign y);
+    try destruct s; reflexivity.
+Qed.
+
+Lemma Bsign_dec : forall b, 0 <= b < 2 ^ w -> is_nan (decw b) = false -> Bsign (decw b) = raw_signbit w b.
+Proof.
+  intros b Hb Hn. rewrite Bsign_sf. rewrite is_nan_sf in Hn. rewrite B2SF_dec in *.
+  destruct (pattern_fields b Hb) as (m & e & Hm & He & Jb & _).
+  set (s := raw_signbit w b) in *. clearbody s. rewrite Jb in *. rewrite (aux_join s m e Hm He) in *.
+  apply sf_sign_with. intros E. rewrite E in Hn. discriminate.
+Qed.
+
+Theorem dec_raw_e_copysign_fb : forall x y, 0 <= x < 2 ^ w -> 0 <= y < 2 ^ w -> is_nan (decw y) = false ->
+  decw (raw_e_copysign_fb w x y) = e_copysign_fb cprec cemax (decw x) (decw y).
+Proof.
+  intros x y Hx Hy Hn. apply B2SF_inj. rewrite e_copysign_fb_sf, !B2SF_dec.
+  pose proof (Bsign_dec y Hy Hn) as Hs. unfold cprec, cemax in Hs |- *. rewrite Hs. clear Hs.
+  rewrite (raw_e_copysign_fb_exact w w_pos x y Hx Hy). unfold spec_raw_copysign.
+  destruct (pattern_fields x Hx) as (m & e & Hm & He & Jx & Ja).
+  (* x mod p + p * (y / p) is x with the sign field of y *)
+  assert (Hj : x mod 2 ^ (w - 1) + 2 ^ (w - 1) * (y / 2 ^ (w - 1)) = Bits.join_bits mw ew (raw_signbit w y) m e).
+  { rewrite Ja. unfold raw_signbit. rewrite (testbit_top w w_pos y Hy).
+    assert (Pp : 0 < 2 ^ (w - 1)) by (apply Z.pow_pos_nonneg; pose proof w_pos; lia).
+    assert (Hy2 : 0 <= y < 2 * 2 ^ (w - 1)) by (rewrite <- (pow_w w w_pos); exact Hy).
+    unfold Bits.join_bits. rewrite !Z.shiftl_mul_pow2 by lia. rewrite pow_split in *.
+    destruct (2 ^ mw * 2 ^ ew <=? y) eqn:E.
+    - apply Z.leb_le in E.
+      assert (y / (2 ^ mw * 2 ^ ew) = 1) by (symmetry; apply Z.div_unique with (y - 2 ^ mw * 2 ^ ew); lia).
+      rewrite H. ring.
+    - apply Z.leb_gt in E. rewrite Z.div_small by lia. ring. }
+  rewrite Hj. set (sx := raw_signbit w x) in Jx. clearbody sx. rewrite Jx.
+  rewrite (aux_join (raw_signbit w y) m e Hm He), (aux_join sx m e Hm He).
+  symmetry. apply sf_with_sign_idem.
+Qed.
+
+End Tie.
